@@ -132,7 +132,7 @@ BY_NAME = {
     "typ": ["service_mgr", "CallContract", "appchain_mgr"], "objLastStatus": ["available"],
     "from": ["$OUT", "$ADMA"], "reason": ["r"], "approve": ["approve", "reject"], "endReason": ["the proposal was cleared"],
     "roleId": ["$GOV1", "$NEW", "$ADMA"], "roleType": ["governanceAdmin", "auditAdmin"], "nodeAccount": ["$NODE", "$NEW"],
-    "nodeId": ["$NODE"], "addr": ["$ADMA", "$NEW"], "addrs": ["$NEW"], "adminAddrs": ["$ADMA", "$ADMA,$NEW"], "account": ["$NEW", "$ADMA"],
+    "nodeId": ["$NODE"], "addr": ["$ADMA", "$NEW"], "addrs": ["$NEW"], "adminAddrs": ["$SELF", "$SELF,$NEW", "$SELF,$ADMB~lower", "$SELF,$GOV1~bare"], "account": ["$NEW", "$ADMA"],
     "txId": [TXID], "globalID": ["g1"], "ibtpID": [TXID], "key": ["bitxhub-id", "service-" + FULL_A, "k", "tx-" + TXID],
     "prefix": ["service"], "address": ["@GovernanceContractAddr", "@TransactionMgrContractAddr", "@RoleContractAddr"],
     "method": ["GetNotClosedProposals", "GetRole", "InitServiceCache", "GetAllRoles"],
